@@ -1,20 +1,22 @@
 #!/bin/bash
 # mutant_check.sh <seeded dir> <Cxx> [tier] — runs ./check Cxx against a seeded change in ISOLATION:
-# a private copy of /verif (/tmp/vmut) whose harness points at a private worktree of /repo
-# (/tmp/mutrepo, at /repo's HEAD) with the patch applied. Nothing in /repo or /verif changes.
+# a private copy of /verif ($V) whose harness points at a private worktree of /repo
+# ($R, at /repo's HEAD) with the patch applied. Nothing in /repo or /verif changes.
 sd="$1"; prop="$2"; tier="${3:-quick}"
+# MUTSLOT=<suffix> gives a second, independent pair of scratch directories (parallel runs)
+V=/tmp/vmut$MUTSLOT; R=/tmp/mutrepo$MUTSLOT
 set -e
-if [ ! -d /tmp/mutrepo ]; then git -C /repo worktree add -q /tmp/mutrepo HEAD; fi
-git -C /tmp/mutrepo checkout -q --detach $(git -C /repo rev-parse HEAD) 2>/dev/null || true
-git -C /tmp/mutrepo checkout -q -- .
-mkdir -p /tmp/vmut
-rsync -a --delete --exclude harness/target --exclude .git --exclude cases --exclude replays --exclude evidence --exclude .locks /verif/ /tmp/vmut/
-sed -i 's#/repo/#/tmp/mutrepo/#g' /tmp/vmut/harness/Cargo.toml
-sed -i 's#"/repo"#"/tmp/mutrepo"#; s#/repo/base#/tmp/mutrepo/base#g' /tmp/vmut/lib/c08.py /tmp/vmut/lib/c23.py
-mkdir -p /tmp/vmut/harness/target
+if [ ! -d $R ]; then git -C /repo worktree add -q $R HEAD; fi
+git -C $R checkout -q --detach $(git -C /repo rev-parse HEAD) 2>/dev/null || true
+git -C $R checkout -q -- .
+mkdir -p $V
+rsync -a --delete --exclude harness/target --exclude .git --exclude cases --exclude replays --exclude evidence --exclude .locks /verif/ $V/
+sed -i "s#/repo/#$R/#g" $V/harness/Cargo.toml
+sed -i "s#\"/repo\"#\"$R\"#; s#/repo/base#$R/base#g" $V/lib/c08.py $V/lib/c23.py
+mkdir -p $V/harness/target
 set +e
-if [ "$sd" != "none" ]; then git -C /tmp/mutrepo apply "$sd/patch.diff" || { echo "PATCH DOES NOT APPLY"; exit 3; }; fi
-cd /tmp/vmut && ./check $prop $tier > /tmp/vmut/last_$prop.out 2>&1; rc=$?
-git -C /tmp/mutrepo checkout -q -- .
-grep -v "^KNOWN" /tmp/vmut/last_$prop.out | cut -c1-400 | head -12
+if [ "$sd" != "none" ]; then git -C $R apply "$sd/patch.diff" || { echo "PATCH DOES NOT APPLY"; exit 3; }; fi
+cd $V && ./check $prop $tier > $V/last_$prop.out 2>&1; rc=$?
+git -C $R checkout -q -- .
+grep -v "^KNOWN" $V/last_$prop.out | cut -c1-400 | head -12
 echo "exit=$rc"
